@@ -7,6 +7,7 @@ Requests (SEP = hex bytes | none; the empty separator of --heading is `-`)
   c08.par  SEP (blocks hex…)          -> hex   output of search_parallel when the lock order is `blocks`
   c08.seq  SEP TERM (blocks hex…)     -> hex   output of search over `blocks` in traversal order
   c08.join SEP TERM (blocks hex…)     -> hex   contract: non-empty blocks joined by SEP++TERM
+  c08.seqb SEP TERM (items (hex 0|1)…)-> hex   search; 1 = the block is a bare `binary file matches` message
   c08.files (blocks hex…)             -> hex   files_parallel
   c08.parseh (lines hN|b|z …)         -> blocks […] gaps […] stray a b bad 0|1    the --heading grammar's cut
   c08.parse (lines s|dN …)            -> blocks [N:len …] gaps [k …] stray a b   the block grammar's cut
@@ -89,6 +90,10 @@ def handle (cmd : String) (args : List Sx) : String :=
       let bs := " ".intercalate (blocks.map fun pb => s!"{pb.1}:{pb.2.length}")
       s!"blocks [{bs}] gaps [{natsToStr gaps}] stray {stray} {trailing} bad {if bad then 1 else 0}"
     | none => "bad-op"
+  | "c08.seqb", [sep, term, .list (.atom "items" :: its)] =>
+    match parseSep sep, term.bytes?, its.mapM parseItem with
+    | some sep, some term, some its => toHex (outSeqB sep term its)
+    | _, _, _ => "bad-op"
   | "c08.files", [bl] =>
     match parseBlocks bl with
     | some bl => toHex (outFilesPar bl)
